@@ -231,6 +231,9 @@ func genRoles(t *rapid.T) map[string][]string {
 		for _, f := range allRoles[r] {
 			if uni(t, 4, "feat") > 0 {
 				fs = append(fs, f)
+			} else if uni(t, 3, "featfalse") == 0 {
+				// listed, with the value false: not announced ("!" marks it in the case data)
+				fs = append(fs, "!"+f)
 			}
 		}
 		out[r] = fs
